@@ -346,7 +346,8 @@ def check_resub(case):
 @st.composite
 def reentrant_case(draw):
     return {'acc': draw(st.sampled_from(['isum', 'fsum', 'minmax', 'append', 'maybe_none'])), 'items': draw(st.lists(st.integers(-8, 8), min_size=1, max_size=8)),
-            'inject_at': draw(st.integers(0, 7)), 'inject': draw(st.integers(-8, 8)), 'grouped': draw(st.booleans())}
+            'inject_at': draw(st.integers(0, 7)), 'inject': draw(st.integers(-8, 8)), 'grouped': draw(st.booleans()),
+            'plain': draw(st.integers(0, 2)) == 0}
 
 
 def check_reentrant(case):
@@ -366,7 +367,8 @@ def check_reentrant(case):
         if state['n'] == case['inject_at'] + 1:
             subject.on_next(case['inject'])          # re-entrant push
 
-    subject.pipe(rs.state.with_memory_store(ops)).subscribe(on_next=on_next, on_error=lambda e: state.update(err=e),
+    piped = subject.pipe(scan) if case.get('plain') else subject.pipe(rs.state.with_memory_store(ops))      # plain: scan on a plain Observable
+    piped.subscribe(on_next=on_next, on_error=lambda e: state.update(err=e),
                                                            on_completed=lambda: state.update(done=state['done'] + 1))
     order = []
     try:
@@ -395,7 +397,7 @@ def check_reentrant(case):
     if not cmp.same_seq(got, exp, approx=False):
         raise Violation('running folds under a re-entrant schedule differ from the fold of the items in arrival order',
                         arrival_order=seq, expected=exp, got=got, **case)
-    return {'nontrivial': case['inject_at'] < len(case['items']), 'labels': ['acc:' + case['acc'], 'grouped' if case['grouped'] else 'root']}
+    return {'nontrivial': case['inject_at'] < len(case['items']), 'labels': ['acc:' + case['acc'], 'plain' if case.get('plain') else 'grouped' if case['grouped'] else 'root']}
 
 
 # ---------------------------------------------------------------- operators defined through scan
